@@ -290,6 +290,9 @@ pub struct Receiver {
     tx: mpsc::Sender<PortEvt>,
     rx: mpsc::UnboundedReceiver<PortReceiveMsg>,
     receiving: Receiving,
+    /// First data of the message that cancelled a chunked reception,
+    /// to be processed by the next receive operation.
+    pending: Option<ReceivedData>,
     credits: ChannelCreditReturner,
     closed: bool,
     finished: bool,
@@ -333,6 +336,7 @@ impl Receiver {
             tx,
             rx,
             receiving: Receiving::Nothing,
+            pending: None,
             credits,
             closed: false,
             finished: false,
@@ -424,18 +428,24 @@ impl Receiver {
                 }
 
                 // Try to receive next chunk.
-                _ => match self.rx.recv().await {
+                _ => match match self.pending.take() {
+                    Some(data) => Some(PortReceiveMsg::Data(data)),
+                    None => self.rx.recv().await,
+                } {
+                    // First segment without last segment indicates that last transmission
+                    // was cancelled. Keep it for the next receive operation.
+                    Some(PortReceiveMsg::Data(data))
+                        if data.first && matches!(&self.receiving, Receiving::Chunks { .. }) =>
+                    {
+                        self.receiving = Receiving::Nothing;
+                        self.pending = Some(data);
+                        return Err(RecvChunkError::Cancelled);
+                    }
+
                     Some(PortReceiveMsg::Data(data)) => {
                         self.credits.start_return(data.credit, self.remote_port, &self.tx);
 
                         match (&self.receiving, data.first) {
-                            // First segment without last segment indicates that last transmission
-                            // was cancelled.
-                            (Receiving::Chunks { .. }, true) => {
-                                self.receiving =
-                                    Receiving::Chunks { chunks: vec![data.buf].into(), completed: data.last };
-                                return Err(RecvChunkError::Cancelled);
-                            }
                             // Either continuation or start of transmission.
                             (Receiving::Chunks { .. }, false) | (_, true) => {
                                 self.receiving =
@@ -482,7 +492,10 @@ impl Receiver {
         loop {
             self.credits.return_flush().await;
 
-            match self.rx.recv().await {
+            match match self.pending.take() {
+                Some(data) => Some(PortReceiveMsg::Data(data)),
+                None => self.rx.recv().await,
+            } {
                 // Data message.
                 Some(PortReceiveMsg::Data(data)) => {
                     self.credits.start_return(data.credit, self.remote_port, &self.tx);
